@@ -5,6 +5,7 @@ import (
 	"go/token"
 	"go/types"
 	"os"
+	"sort"
 	"strconv"
 	"strings"
 )
@@ -81,6 +82,34 @@ func c17r2(p *Program, r *Report) {
 					if b, isB := ast.Unparen(rhs).(*ast.BinaryExpr); isB && b.Op == token.SUB && p.isField(info, b.X, "hostConnPool", "size") {
 						if id, isId := as.Lhs[i].(*ast.Ident); isId {
 							countVars[id.Name] = true
+						}
+					}
+					// the same difference computed by a one-line helper: missing(size) = size - len(conns)
+					if c, isC := ast.Unparen(rhs).(*ast.CallExpr); isC {
+						if fn := calleeOf(info, c); fn != nil {
+							if h := p.FuncOf(fn); h != nil && h.Decl.Body != nil && len(h.Decl.Body.List) == 1 {
+								if rs, isR := h.Decl.Body.List[0].(*ast.ReturnStmt); isR && len(rs.Results) == 1 {
+									if b, isB := ast.Unparen(rs.Results[0]).(*ast.BinaryExpr); isB && b.Op == token.SUB {
+										hinfo := h.Pkg.TypesInfo
+										sizeOK := p.isField(hinfo, b.X, "hostConnPool", "size")
+										if pid, isId := ast.Unparen(b.X).(*ast.Ident); isId {
+											if k := paramIndexByName(h.Decl.Type, pid.Name); k >= 0 && k < len(c.Args) && p.isField(info, c.Args[k], "hostConnPool", "size") {
+												sizeOK = true
+											}
+										}
+										connsOK := false
+										ast.Inspect(b.Y, func(y ast.Node) bool {
+											if sel, isSel := y.(*ast.SelectorExpr); isSel && p.isField(hinfo, sel, "hostConnPool", "conns") {
+												connsOK = true
+											}
+											return true
+										})
+										if id, isId := as.Lhs[i].(*ast.Ident); isId && sizeOK && connsOK {
+											countVars[id.Name] = true
+										}
+									}
+								}
+							}
 						}
 					}
 				}
@@ -365,6 +394,37 @@ func c17r2(p *Program, r *Report) {
 				ngo++
 				// the goroutine must signal completion on every path: defer wg.Done()
 				okDone := false
+				// the goroutine is a literal, or a method / function of the module started by name
+				if _, isLit := gs.Call.Fun.(*ast.FuncLit); !isLit {
+					if fn := calleeOf(cinfo, gs.Call); fn != nil {
+						if m := p.FuncOf(fn); m != nil && m.Decl.Body != nil && m.Pkg == p.Root {
+							minfo := m.Pkg.TypesInfo
+							ast.Inspect(m.Decl.Body, func(x ast.Node) bool {
+								if d, ok := x.(*ast.DeferStmt); ok && isCallTo(minfo, d.Call, "sync.(*WaitGroup).Done") {
+									okDone = true
+								}
+								return true
+							})
+							if !okDone {
+								mg := p.GraphOf(m)
+								mef := mg.Events(func(st Step) []string {
+									if st.Kind == StNode {
+										if _, ok := st.Node.(*ast.SendStmt); ok {
+											return []string{"sent"}
+										}
+									}
+									return nil
+								})
+								okDone = true
+								for _, e := range mg.Exits() {
+									if s, ok := mef.ExitState(e); ok && e.Kind != ExitPanic && !s.Must["sent"] {
+										okDone = false
+									}
+								}
+							}
+						}
+					}
+				}
 				if lit, ok := gs.Call.Fun.(*ast.FuncLit); ok {
 					ast.Inspect(lit.Body, func(m ast.Node) bool {
 						if d, ok := m.(*ast.DeferStmt); ok && isCallTo(cinfo, d.Call, "sync.(*WaitGroup).Done") {
@@ -703,9 +763,50 @@ func c17r5(p *Program, r *Report) {
 		}
 		return ""
 	}
-	ef := g.Events(func(st Step) []string {
+	var cls Classifier
+	// a teardown written as a table of steps that a loop runs one after the other: what every step does on all of
+	// its paths happens when the loop is entered
+	tableEvents := func(loop ast.Stmt) []string {
+		var evs []string
+		for _, lit := range p.runAllLoop(info, loop) {
+			lg := p.newGraph(lit, lit.Body, info, fi.Name+"$step@"+p.Pos(lit))
+			lef := lg.Events(cls)
+			var must map[string]bool
+			for _, e := range lg.Exits() {
+				if e.Kind == ExitPanic {
+					continue
+				}
+				es, ok := lef.ExitState(e)
+				if !ok {
+					continue
+				}
+				if must == nil {
+					must = map[string]bool{}
+					for k := range es.Must {
+						must[k] = true
+					}
+				} else {
+					for k := range must {
+						if !es.Must[k] {
+							delete(must, k)
+						}
+					}
+				}
+			}
+			for k := range must {
+				evs = append(evs, k)
+			}
+		}
+		sort.Strings(evs)
+		return evs
+	}
+	cls = func(st Step) []string {
 		var evs []string
 		switch st.Kind {
+		case StRange:
+			if rs, ok := st.Node.(*ast.RangeStmt); ok {
+				return tableEvents(rs)
+			}
 		case StCond:
 			// s.F != nil false  /  s.F == nil true
 			if b, ok := ast.Unparen(st.Node.(ast.Expr)).(*ast.BinaryExpr); ok && (b.Op == token.NEQ || b.Op == token.EQL) {
@@ -724,6 +825,9 @@ func c17r5(p *Program, r *Report) {
 		case StNode:
 			if _, ok := st.Node.(*ast.GoStmt); ok {
 				return nil
+			}
+			if fs, ok := p.Parent(st.Node).(*ast.ForStmt); ok && fs.Init == st.Node {
+				evs = append(evs, tableEvents(fs)...)
 			}
 			for _, c := range callsIn(st.Node) {
 				if rx := recvExpr(c); rx != nil {
@@ -745,7 +849,8 @@ func c17r5(p *Program, r *Report) {
 			}
 		}
 		return evs
-	})
+	}
+	ef := g.Events(cls)
 	nset := 0
 	for _, u := range p.unitsOf(fi)[1:] {
 		ug := p.GraphOf(u)
